@@ -659,6 +659,7 @@ impl Prop for Statics {
         match built {
             Built::U(af, labels) => self.run_generic(&af, &labels, &cx, rec),
             Built::S(af, labels) => self.run_generic(&af, &labels, &cx, rec),
+            Built::C(af, labels) => self.run_generic(&af, &labels, &cx, rec),
         }
     }
 }
